@@ -12,13 +12,13 @@ Each sub-directory holds a change to WilsonGregory/ginjax written by a fresh sub
 the text of one property and its own scratch git worktree of `/repo` (never `/verif`): `patch.diff`, the
 demonstration `demo.py` (exits 0 on the unmodified tree, non-zero with the patch) and `meta.json` (what it
 breaks, what it needs in order to manifest, which tests the agent ran, and what I ran to confirm it).
-Round 1 = one change per property; rounds 2, 3 and 4 (`-r2-`, `-r3-`, `-r4-` in the name) = further, different
+Round 1 = one change per property; rounds 2 to 7 (`-r2-` ... `-r7-` in the name) = further, different
 changes per property, the agent being told what the earlier rounds had done so that it would pick another mechanism
 (round 3 additionally asked for subtle changes around corner values and rarely used options, round 4 for breakage
 that needs something unusual -- larger sizes or counts, D=3 only, rare keyword arguments, coinciding sizes, a
 sequence of calls -- so that small spot checks are unlikely to hit it).
 
-Procedure used to confirm each one (`seeded_confirm.sh`, `seeded_confirm2.sh`, `seeded_confirm3.sh`, `seeded_confirm4.sh`): run the demo on a scratch
+Procedure used to confirm each one (`seeded_confirm.sh` ... `seeded_confirm6.sh`; round 7: `seeded_confirm7a.sh` for the demonstration on two scratch worktrees, `seeded_confirm7b.sh` for the checks on `/repo`): run the demo on a scratch
 worktree with the patch (must fail) and on `/repo` (must pass); `git -C /repo apply patch.diff`; run the quick
 checks; `git -C /repo checkout -- .`.  None of these changes is ever committed to `/repo`.  All of them are
 replayed by `./selftest` (as `seeded:<name>`) next to the hand-written mutants.
@@ -66,6 +66,25 @@ Round 4
 * `C16-r4-predictions-zipped-positionally` -- missed: the uninterpreted model emitted its output types in input order; models emitting them reversed / sorted joined the box.
 * `C17-r4-reshape-pmap-round-robin` -- undecided (exit 2): `jax.lax.slice_in_dim` was not modelled; `slice_in_dim`, `slice`, `dynamic_slice_in_dim`, `index_in_dim` were added.
 * `C19-r4-stop-checked-after-epoch` -- undecided (exit 2): the AST rule for the training loop did not recognise the do-while form; `ml.train` is now abstractly interpreted with recording stubs for its collaborators and fed loss histories (epochs trained and model handed back vs the statement), whatever the loop looks like.
+
+Rounds 5, 6 and 7 (55 further changes; rounds 5-7 asked for breakage that needs a multi-step sequence on one object, two
+cooperating sites, a second call after a first one, a model after a training step, unusual counts or degenerate
+sizes).  The table above gives, per change, whether it was reported at once or what was strengthened; the recurring
+lessons were
+* *state across calls*: no single-call obligation can see a stale memo or a stale lazily derived attribute; the STATE
+  rules (S1 shared-memo mutation, S2 stale derived attribute incl. self-validating caches with a lossy guard, S3 memo key
+  that does not determine the result, incl. `id()` keys) and the PURITY rule (no in-place change of the operands of an API
+  call) were built for them (`C05-r6`, `C15-r6`, `C12-r7`, `C17-r7`);
+* *what happens to a model after a training step*: pytree round trips (sorted dict keys), trainable leaves that must not
+  be trainable, donated buffers (`C09-r5`, `C06-r6`, `C07-r6`, `C06-r7`, `C07-r7`, `C19-r7`: C09.STRUCT, C06/C07.TAINT, C19.DONATE);
+* *degenerate and large sizes*: 1-pixel filters, extent 1, single-type signatures, 33 trajectories, seed bases > 512
+  (`C03-r5`, `C04-r7`, `C20-r7`, `C15-r7`);
+* *an oracle that was too narrow*: stateless inner model (`C16-r7`), default epsilon only (`C18-r7`), fresh stopping
+  conditions only (`C09-r7`), operands transformed by the specification instead of the library's own action (`C01-r7`),
+  wrappers covered by an AST rule only (`C03-r7`).
+Three of the round-7 changes also exposed checks of mine that were too eager (false-alarm shapes, corrected in the rule,
+see DESIGN.md 4): the first PURITY rule flagged every lazily filled attribute, `C09.TRAIN.update` flagged an update moved
+into a helper function, `C19.TRAIN.return` flagged any return expression other than the literal attribute.
 
 The C20 round-2 agent also noticed, independently, the defect repaired as F13 (output types in order of first
 reachability when the bank lacks a filter type).
